@@ -15,7 +15,7 @@ def run(ctx):
                 "RoundTrip!Equiv9 (TraceRoundTrip). distinct = (font, format) events.")
     ctx.assumptions = ["the projection to fixed point (10^-4) has one unit of slack; exact equality is demanded for integer coordinates",
                        "BlueScale values within 10^-6 of 0.039625 but different from it are not generated (C10 names the snap)"]
-    n = 40 if ctx.tier == "quick" else 600
+    n = 40 if ctx.tier == "quick" else 4000
     r = tvcommon.run_tv(ctx, "cycle-t1", [n, ctx.seed], "TraceRoundTrip", "Relation", "cycle",
                         sigfn=sig9, what="the font read back differs from the font written (RoundTrip!Equiv9)")
     # vacuity guard: every coincidence class of lines (h, v, zero, general) and curves (horizontal / vertical
